@@ -4,9 +4,8 @@ import Goyang.Lemmas.IncludeAsmDefs
 C13 (third sentence), part 4b: the conversion of a (sub)module statement.
 
 `mod_conv`: a (sub)module without include statements converts to the pure fold of its field steps
-over the values of its top-level statements (`pmod`), up to renaming and where error free.
-`owner_conv`: the owner of a split converts to its own steps before the include step, the merged
-entries of the submodules, its own steps after (`powner`).
+over the values of its top-level statements (`pmod`), up to renaming and where error free.  The
+include step (`incStep`) and the conversion of the parts of a split are in IncludeModN.lean.
 -/
 namespace Goyang.Lemmas.IncludeMod
 open Goyang.Model Goyang.Spec.Include Goyang.Lemmas.Tree Goyang.Spec.Tree Goyang.Lemmas.IncludeRel
@@ -288,287 +287,6 @@ theorem sub_eq_of_name (hr : RegsOK s R R') : ∀ {a b : Mod}, a ∈ s.subs → 
   have := hr.sub_names_nodup
   intro a b ha hb hab
   exact nodup_map_inj _ _ this ha hb hab
-
-/-- The state invariant of the include step of the owner, after the submodules `done`. -/
-structure IncInv (s : Split) (R R' : Registry) (opts : Opts) (plug : Plug) (st : TState) (done : List Mod) (t : TState) :
-    Prop where
-  coh : Coh (Ws s R R' opts plug) t.gcache
-  merged : t.merged = done.flatMap (fun sb => [mkey s sb, mkey s sb])
-  cache : ∀ p ∈ t.cache, p ∈ st.cache ∨ ∃ sb ∈ done, p.1 = sb.seq ∧
-    REb s.σ p.2 (pmod (envOf R opts plug) (vm s R opts plug) s.m sb.stmt)
-  cached : ∀ sb ∈ done, ∃ e, (sb.seq, e) ∈ t.cache
-  grows : ∀ p ∈ st.cache, p ∈ t.cache
-
-
-omit opts plug in
-theorem flatMap_keys_contains (hr : RegsOK s R R') (done : List Mod) (hd : ∀ x ∈ done, x ∈ s.subs) (sb : Mod) (hsb : sb ∈ s.subs)
-    (hnot : sb ∉ done) : (done.flatMap (fun x => [mkey s x, mkey s x])).contains (mkey s sb) = false := by
-  rw [Bool.eq_false_iff]
-  intro h
-  rw [List.contains_iff_mem] at h
-  obtain ⟨x, hx, hk⟩ := List.mem_flatMap.1 h
-  have hk' : mkey s sb = mkey s x := by
-    simp only [List.mem_cons, List.mem_nil_iff, or_false, or_self] at hk
-    exact hk
-  have := sub_eq_of_name hr hsb (hd x hx) (mkey_inj _ _ hk')
-  exact hnot (this ▸ hx)
-
-omit opts plug in
-theorem flatMap_keys_apart (hr : RegsOK s R R') (done : List Mod) (hd : ∀ x ∈ done, x ∈ s.subs) (sb : Mod) (hsb : sb ∈ s.subs) :
-    (done.flatMap (fun x => [mkey s x, mkey s x])).contains (s.m.name ++ ":" ++ sb.name) = false := by
-  rw [Bool.eq_false_iff]
-  intro h
-  rw [List.contains_iff_mem] at h
-  obtain ⟨x, hx, hk⟩ := List.mem_flatMap.1 h
-  have hk' : s.m.name ++ ":" ++ sb.name = mkey s x := by
-    simp only [List.mem_cons, List.mem_nil_iff, or_false, or_self] at hk
-    exact hk
-  exact hr.keys_apart sb hsb x (hd x hx) hk'
-
-include ht hr hl hW in
-/-- **The include step of the owner**: every submodule is converted once and merged. -/
-theorem inc_fold (f : Nat) (st : TState) (hst : ∀ p ∈ st.cache, ∀ sb ∈ s.subs, p.1 ≠ sb.seq)
-    (hfuel : ∀ sb ∈ s.subs, Fuel.need R' sb sb.stmt [nodeId s.owner s.owner.stmt] + lookupSlack R' ≤ f) :
-    ∀ (as : List Stmt) (rest done : List Mod), done ++ rest = s.subs → as.map (R'.findModule true) = rest.map some →
-    ∀ (e₁ : Entry) (t₁ : TState) (e₂ : Entry), REb s.σ e₁ e₂ → IncInv s R R' opts plug st done t₁ →
-      REb s.σ (as.foldl (incStep (Ws s R R' opts plug).env₁ (toEntry (Ws s R R' opts plug).env₁ f) s.owner s.owner.stmt
-          [nodeId s.owner s.owner.stmt]) (e₁, t₁)).1
-        (pmerge e₂ (rest.map fun sb => pmod (envOf R opts plug) (vm s R opts plug) s.m sb.stmt)) ∧
-      IncInv s R R' opts plug st s.subs (as.foldl (incStep (Ws s R R' opts plug).env₁ (toEntry (Ws s R R' opts plug).env₁ f)
-          s.owner s.owner.stmt [nodeId s.owner s.owner.stmt]) (e₁, t₁)).2 ∧
-      (as.foldl (incStep (Ws s R R' opts plug).env₁ (toEntry (Ws s R R' opts plug).env₁ f) s.owner s.owner.stmt
-          [nodeId s.owner s.owner.stmt]) (e₁, t₁)).1.d.kind = e₁.d.kind := by
-  intro as
-  induction as with
-  | nil =>
-    intro rest done hdr hmap e₁ t₁ e₂ hre hinv
-    have : rest = [] := by
-      cases rest with
-      | nil => rfl
-      | cons x xs => simp at hmap
-    subst this
-    rw [List.append_nil] at hdr
-    subst hdr
-    exact ⟨hre, hinv, rfl⟩
-  | cons a as ih =>
-    intro rest done hdr hmap e₁ t₁ e₂ hre hinv
-    cases rest with
-    | nil => simp at hmap
-    | cons sb rest =>
-      simp only [List.map_cons, List.cons.injEq] at hmap
-      obtain ⟨hfa, hmap'⟩ := hmap
-      have hsb : sb ∈ s.subs := by rw [← hdr]; simp
-      have hdone : ∀ x ∈ done, x ∈ s.subs := fun x hx => by rw [← hdr]; simp [hx]
-      have hnd : sb ∉ done := by
-        intro hmem
-        have hn := hr.sub_seqs_nodup
-        rw [← hdr, List.map_append, List.map_cons] at hn
-        have := (List.nodup_append.1 hn).2.2 sb.seq (List.mem_map_of_mem hmem) sb.seq (List.mem_cons_self ..)
-        exact this rfl
-      -- the include statement resolves to the submodule
-      have htgt : (Ws s R R' opts plug).env₁.includeTarget s.owner a = some sb := by
-        unfold Env.includeTarget
-        have : (Ws s R R' opts plug).env₁.linked.contains s.owner.seq = true := owner_linked hr hl
-        rw [if_pos this]
-        exact hfa
-      have hname : s.owner.stmt.arg = s.m.name := ht.owner_arg
-      have hk1 : t₁.merged.contains (sb.name ++ ":" ++ s.owner.stmt.arg) = false := by
-        rw [hname, hinv.merged]; exact flatMap_keys_contains hr done hdone sb hsb hnd
-      have hk2 : t₁.merged.contains (s.owner.stmt.arg ++ ":" ++ sb.name) = false := by
-        rw [hname, hinv.merged]; exact flatMap_keys_apart hr done hdone sb hsb
-      have hk3 : sb.name ≠ s.owner.stmt.arg := by rw [hname]; exact hr.sub_name_ne sb hsb
-      have hk4 : t₁.merged.contains (sb.name ++ ":" ++ s.m.name) = false := by
-        rw [hinv.merged]; exact flatMap_keys_contains hr done hdone sb hsb hnd
-      rw [List.foldl_cons, incStep_fresh _ _ _ _ _ _ _ _ sb s.m.name htgt (ht.sub_belongs sb hsb) hk1 hk2 hk3 hk4]
-      -- the conversion of the submodule
-      obtain ⟨f0, rfl⟩ : ∃ f0, f = f0 + 1 := by
-        have hwf : WF (Ws s R R' opts plug).env₁.reg sb [] sb.stmt := ⟨part_mem' hr (List.mem_cons_of_mem _ hsb), rfl⟩
-        have := Fuel.need_pos (env := (Ws s R R' opts plug).env₁) [nodeId s.owner s.owner.stmt] hwf.inv
-        have h2 := hfuel sb hsb
-        exact ⟨f - 1, by
-          have h3 : Fuel.need (Ws s R R' opts plug).env₁.reg sb sb.stmt [nodeId s.owner s.owner.stmt] =
-            Fuel.need R' sb sb.stmt [nodeId s.owner s.owner.stmt] := rfl
-          omega⟩
-      have hvis : OnlyMods (Ws s R R' opts plug) [nodeId s.owner s.owner.stmt] :=
-        onlyMods_cons _ (onlyMods_nil _) (part_mem' hr (List.mem_cons_self ..)) (owner_kw_mod ht)
-      have hnv : [nodeId s.owner s.owner.stmt].contains (nodeId sb sb.stmt) = false := by
-        rw [Bool.eq_false_iff]
-        intro h
-        simp only [List.contains_cons, List.contains_nil, Bool.or_false, beq_iff_eq] at h
-        have : sb.seq = s.owner.seq := congrArg (·.1) h
-        exact sub_seq_ne_owner hr hsb this
-      have hcache : ({ t₁ with merged := t₁.merged ++ [sb.name ++ ":" ++ s.owner.stmt.arg, sb.name ++ ":" ++ s.m.name] } : TState).cache.find?
-          (·.1 == sb.seq) = none := by
-        rw [List.find?_eq_none]
-        intro p hp
-        simp only [beq_iff_eq]
-        rcases hinv.cache p hp with h | ⟨x, hx, hpx, _⟩
-        · exact hst p h sb hsb
-        · intro he
-          exact hnd ((sub_eq_of_seq hr hsb (hdone x hx) (he.symm.trans hpx)) ▸ hx)
-      have hcr : (Ws s R R' opts plug).CR sb [sb.stmt] s.m [s.m.stmt] :=
-        Or.inl ⟨List.mem_cons_of_mem _ hsb, rfl, [], rfl, rfl⟩
-      have mc := mod_conv (Ws s R R' opts plug) hW sb s.m (part_mem' hr (List.mem_cons_of_mem _ hsb)) (sub_kw_mod ht hsb)
-        (hr.sub_no_include sb hsb) hcr f0 [nodeId s.owner s.owner.stmt]
-        { t₁ with merged := t₁.merged ++ [sb.name ++ ":" ++ s.owner.stmt.arg, sb.name ++ ":" ++ s.m.name] }
-        hvis hnv hcache (hfuel sb hsb) hinv.coh
-      obtain ⟨m1, m2, m3, m4⟩ := mc
-      generalize toEntry (Ws s R R' opts plug).env₁ (f0 + 1) sb [] sb.stmt [nodeId s.owner s.owner.stmt]
-        { t₁ with merged := t₁.merged ++ [sb.name ++ ":" ++ s.owner.stmt.arg, sb.name ++ ":" ++ s.m.name] } = out at m1 m2 m3 m4 ⊢
-      obtain ⟨esb, tsb⟩ := out
-      dsimp only at m1 m2 m3 m4 ⊢
-      have hinv' : IncInv s R R' opts plug st (done ++ [sb]) tsb := by
-        refine ⟨m2, ?_, ?_, ?_, fun p hp => by rw [m3]; exact List.mem_append_left _ (hinv.grows p hp)⟩
-        · rw [m4, hinv.merged, hname, List.flatMap_append]
-          simp [mkey]
-        · intro p hp
-          rw [m3] at hp
-          rcases List.mem_append.1 hp with hp | hp
-          · rcases hinv.cache p hp with h | ⟨x, hx, h1, h2⟩
-            · exact Or.inl h
-            · exact Or.inr ⟨x, List.mem_append_left _ hx, h1, h2⟩
-          · simp only [List.mem_singleton] at hp
-            subst hp
-            exact Or.inr ⟨sb, by simp, rfl, m1⟩
-        · intro x hx
-          rw [m3]
-          rcases List.mem_append.1 hx with hx | hx
-          · obtain ⟨e, he⟩ := hinv.cached x hx
-            exact ⟨e, List.mem_append_left _ he⟩
-          · simp only [List.mem_singleton] at hx
-            subst hx
-            exact ⟨esb, by simp⟩
-      have hre' : REb s.σ (e₁.merge none esb) (e₂.merge none (pmod (envOf R opts plug) (vm s R opts plug) s.m sb.stmt)) :=
-        (closed2_REb s.σ).merge _ _ _ _ hre m1
-      have := ih rest (done ++ [sb]) (by rw [← hdr]; simp) hmap' (e₁.merge none esb) tsb _ hre' hinv'
-      refine ⟨?_, this.2.1, ?_⟩
-      · simpa [pmerge] using this.1
-      · rw [this.2.2]; exact (rootKeep_merge e₁ none esb).2.1
-
-
-include ht hr hl hW in
-/-- **The owner converts to its own steps, the merged submodules, its own remaining steps.** -/
-theorem owner_conv (f : Nat) (st : TState) (hst : ∀ p ∈ st.cache, ∀ sb ∈ s.subs, p.1 ≠ sb.seq)
-    (hmerged : st.merged = []) (hcache : st.cache.find? (·.1 == s.owner.seq) = none)
-    (hcoh : Coh (Ws s R R' opts plug) st.gcache)
-    (hneed : Fuel.need R' s.owner s.owner.stmt [] + lookupSlack R' ≤ f + 1) :
-    REb s.σ (toEntry (Ws s R R' opts plug).env₁ (f + 1) s.owner [] s.owner.stmt [] st).1
-      (powner (envOf R opts plug) (vm s R opts plug) s.m s.owner.stmt (s.subs.map (·.stmt))) ∧
-    Coh (Ws s R R' opts plug) (toEntry (Ws s R R' opts plug).env₁ (f + 1) s.owner [] s.owner.stmt [] st).2.gcache ∧
-    (∀ p ∈ (toEntry (Ws s R R' opts plug).env₁ (f + 1) s.owner [] s.owner.stmt [] st).2.cache,
-      p ∈ st.cache ∨ p = (s.owner.seq, (toEntry (Ws s R R' opts plug).env₁ (f + 1) s.owner [] s.owner.stmt [] st).1) ∨
-      ∃ sb ∈ s.subs, p.1 = sb.seq ∧ REb s.σ p.2 (pmod (envOf R opts plug) (vm s R opts plug) s.m sb.stmt)) ∧
-    (s.owner.seq, (toEntry (Ws s R R' opts plug).env₁ (f + 1) s.owner [] s.owner.stmt [] st).1) ∈
-      (toEntry (Ws s R R' opts plug).env₁ (f + 1) s.owner [] s.owner.stmt [] st).2.cache ∧
-    (∀ sb ∈ s.subs, ∃ e, (sb.seq, e) ∈ (toEntry (Ws s R R' opts plug).env₁ (f + 1) s.owner [] s.owner.stmt [] st).2.cache) ∧
-    (∀ p ∈ st.cache, p ∈ (toEntry (Ws s R R' opts plug).env₁ (f + 1) s.owner [] s.owner.stmt [] st).2.cache) := by
-  have hm := owner_kw_mod ht
-  have hX : s.owner ∈ (Ws s R R' opts plug).env₁.reg.mods := part_mem' hr (List.mem_cons_self ..)
-  have hcr : (Ws s R R' opts plug).CR s.owner [s.owner.stmt] s.m [s.m.stmt] :=
-    Or.inl ⟨List.mem_cons_self .., rfl, [], rfl, rfl⟩
-  rw [Tree.toEntry_succ, toEntryBody_mod _ f _ s.owner [] s.owner.stmt [] st hm hcache (by simp)]
-  unfold dirBody
-  dsimp only
-  rw [fieldOrder_mod hm, List.foldl_append, List.foldl_append, List.foldl_cons, List.foldl_nil, step_include_eq]
-  -- the steps before the include step
-  have hcalls : ∀ st', ∀ c, (∃ fld ∈ fieldOrder s.owner.stmt.kw, Called s.owner.stmt fld c) → ∀ t₁ t₂,
-      RSm (Ws s R R' opts plug) st' t₁ t₂ → AccRel (REb s.σ) (RSm (Ws s R R' opts plug) st')
-        (toEntry (Ws s R R' opts plug).env₁ f s.owner [s.owner.stmt] c (nodeId s.owner s.owner.stmt :: []) t₁)
-        (constRec (vm s R opts plug) s.m [s.owner.stmt] c [] t₂) :=
-    fun st' => mod_calls (Ws s R R' opts plug) hW s.owner s.m hX hm hcr f [] st' (onlyMods_nil _) (by simp) hneed
-  have keyA := fields_rel (RE := REb s.σ) (RS := RSm (Ws s R R' opts plug) st) (closed2_REb s.σ)
-    (Ws s R R' opts plug).env₁ (envOf R opts plug) (toEntry (Ws s R R' opts plug).env₁ f) (constRec (vm s R opts plug))
-    s.owner s.m s.owner.stmt [s.owner.stmt] [s.owner.stmt] (nodeId s.owner s.owner.stmt :: []) [] (hcalls st) true
-    (fun _ s₁ s₂ _ _ hs _ => hs) preFields (fun fld hfld c hc => ⟨fld, pre_sub hm fld hfld, hc⟩) no_io_pre
-    (e0 s.owner s.owner.stmt, st) (e0 s.m s.owner.stmt, {})
-    ⟨REb_of_eq _ (ren_e0 _ _ _ _ (hW.cr_seq hcr)), hcoh, rfl, rfl⟩ (e0_kind_eq _ _ _)
-  obtain ⟨⟨hreA, hcoA, hcaA, hmeA⟩, hkA⟩ := keyA
-  generalize hA1 : preFields.foldl (stepFn (Ws s R R' opts plug).env₁ (toEntry (Ws s R R' opts plug).env₁ f) s.owner
-    s.owner.stmt [s.owner.stmt] (nodeId s.owner s.owner.stmt :: []) true) (e0 s.owner s.owner.stmt, st) = A1
-    at hreA hcoA hcaA hmeA hkA ⊢
-  obtain ⟨eA, tA⟩ := A1
-  dsimp only at hreA hcoA hcaA hmeA hkA
-  -- the include step
-  have hinvA : IncInv s R R' opts plug st [] tA :=
-    ⟨hcoA, (by rw [hmeA, hmerged]; rfl), fun p hp => Or.inl (hcaA ▸ hp), fun _ h => (by cases h),
-      fun p hp => (by rw [hcaA]; exact hp)⟩
-  have hfuelS : ∀ sb ∈ s.subs, Fuel.need R' sb sb.stmt [nodeId s.owner s.owner.stmt] + lookupSlack R' ≤ f := by
-    intro sb hsb
-    have hwf : WF (Ws s R R' opts plug).env₁.reg s.owner [] s.owner.stmt := ⟨hX, rfl⟩
-    have hpos := Fuel.need_pos (env := (Ws s R R' opts plug).env₁) [] hwf.inv
-    have hneed0 : Fuel.need (Ws s R R' opts plug).env₁.reg s.owner s.owner.stmt [] + lookupSlack R' ≤ f + 1 := hneed
-    have hneed' : Fuel.need (Ws s R R' opts plug).env₁.reg s.owner s.owner.stmt [] ≤ (f - lookupSlack R') + 1 := by omega
-    have htr : Fuel.isTracked s.owner.stmt = true := by
-      unfold isModKw at hm; unfold Fuel.isTracked; rw [hm]; rfl
-    obtain ⟨i, hi, hfi⟩ := IncludeLink.sub_included hr hsb
-    have htgt : (Ws s R R' opts plug).env₁.includeTarget s.owner i = some sb := by
-      unfold Env.includeTarget
-      have : (Ws s R R' opts plug).env₁.linked.contains s.owner.seq = true := owner_linked hr hl
-      rw [if_pos this]
-      exact hfi
-    have hinF : "include" ∈ fieldOrder s.owner.stmt.kw := by rw [fieldOrder_mod hm]; simp
-    obtain ⟨_, hn'⟩ := Fuel.callee_need hwf.inv hneed' (by simp) (Fuel.Callee.include_ (scope := []) hinF htgt)
-    have hv' : Fuel.visiting' s.owner s.owner.stmt [] = [nodeId s.owner s.owner.stmt] := by
-      unfold Fuel.visiting'; rw [htr]; rfl
-    rw [hv'] at hn'
-    have h3 : Fuel.need (Ws s R R' opts plug).env₁.reg sb sb.stmt [nodeId s.owner s.owner.stmt] =
-      Fuel.need R' sb sb.stmt [nodeId s.owner s.owner.stmt] := rfl
-    omega
-  have keyB := inc_fold opts plug ht hr hl hW f st hst hfuelS (s.owner.stmt.all "include") s.subs [] rfl hr.owner_includes
-    eA tA _ hreA hinvA
-  obtain ⟨hreB, hinvB, hkB⟩ := keyB
-  generalize hB1 : (s.owner.stmt.all "include").foldl (incStep (Ws s R R' opts plug).env₁
-    (toEntry (Ws s R R' opts plug).env₁ f) s.owner s.owner.stmt [nodeId s.owner s.owner.stmt]) (eA, tA) = B1
-    at hreB hinvB hkB ⊢
-  obtain ⟨eB, tB⟩ := B1
-  dsimp only at hreB hinvB hkB
-  -- the steps after the include step
-  have hkB2 : eB.d.kind = (pmerge (preFields.foldl (stepFn (envOf R opts plug) (constRec (vm s R opts plug)) s.m
-      s.owner.stmt [s.owner.stmt] [] true) (e0 s.m s.owner.stmt, {})).1
-      (s.subs.map fun sb => pmod (envOf R opts plug) (vm s R opts plug) s.m sb.stmt)).d.kind := by
-    rw [hkB, hkA]
-    unfold pmerge
-    refine (foldl_inv (fun x : Entry => x.d.kind = (preFields.foldl (stepFn (envOf R opts plug)
-      (constRec (vm s R opts plug)) s.m s.owner.stmt [s.owner.stmt] [] true) (e0 s.m s.owner.stmt, {})).1.d.kind) _ _ _ rfl ?_).symm
-    intro b a _ hb
-    rw [(rootKeep_merge b none a).2.1]; exact hb
-  have keyC := fields_rel (RE := REb s.σ) (RS := RSm (Ws s R R' opts plug) tB) (closed2_REb s.σ)
-    (Ws s R R' opts plug).env₁ (envOf R opts plug) (toEntry (Ws s R R' opts plug).env₁ f) (constRec (vm s R opts plug))
-    s.owner s.m s.owner.stmt [s.owner.stmt] [s.owner.stmt] (nodeId s.owner s.owner.stmt :: []) [] (hcalls tB) true
-    (fun _ s₁ s₂ _ _ hs _ => hs) postFields (fun fld hfld c hc => ⟨fld, post_sub hm fld hfld, hc⟩) no_io_post
-    (eB, tB) (_, {}) ⟨hreB, hinvB.coh, rfl, rfl⟩ hkB2
-  obtain ⟨⟨hreC, hcoC, hcaC, hmeC⟩, _⟩ := keyC
-  generalize hC1 : postFields.foldl (stepFn (Ws s R R' opts plug).env₁ (toEntry (Ws s R R' opts plug).env₁ f) s.owner
-    s.owner.stmt [s.owner.stmt] (nodeId s.owner s.owner.stmt :: []) true) (eB, tB) = C1 at hreC hcoC hcaC hmeC ⊢
-  obtain ⟨eC, tC⟩ := C1
-  dsimp only at hreC hcoC hcaC hmeC
-  simp only [if_true]
-  refine ⟨?_, hcoC, ?_, ?_, ?_, ?_⟩
-  · have : powner (envOf R opts plug) (vm s R opts plug) s.m s.owner.stmt (s.subs.map (·.stmt)) =
-        (postFields.foldl (stepFn (envOf R opts plug) (constRec (vm s R opts plug)) s.m s.owner.stmt [s.owner.stmt] [] true)
-          (pmerge (preFields.foldl (stepFn (envOf R opts plug) (constRec (vm s R opts plug)) s.m s.owner.stmt
-            [s.owner.stmt] [] true) (e0 s.m s.owner.stmt, {})).1
-            (s.subs.map fun sb => pmod (envOf R opts plug) (vm s R opts plug) s.m sb.stmt), {})).1 := by
-      unfold powner pfold
-      rw [List.map_map]
-      rfl
-    rw [this]
-    exact hreC
-  · intro p hp
-    rw [hcaC] at hp
-    rcases List.mem_append.1 hp with hp | hp
-    · rcases hinvB.cache p hp with h | ⟨sb, hsb, h1, h2⟩
-      · exact Or.inl h
-      · exact Or.inr (Or.inr ⟨sb, hsb, h1, h2⟩)
-    · simp only [List.mem_singleton] at hp
-      exact Or.inr (Or.inl hp)
-  · rw [hcaC]; simp
-  · intro sb hsb
-    obtain ⟨e, he⟩ := hinvB.cached sb hsb
-    exact ⟨e, by rw [hcaC]; exact List.mem_append_left _ he⟩
-  · intro p hp
-    rw [hcaC]
-    exact List.mem_append_left _ (hinvB.grows p hp)
 
 end Owner
 
